@@ -95,6 +95,8 @@ def view_sig(P, pos, rev, st, ops):
     parts = ["rev" if rev else "fwd"]
     if st > 1:
         parts.append("strided")
+    # a view derived from a degapped sequence or from a feature slice is a class of its own
+    parts += sorted({o[0] for o in ops[:-1]} & {"dg", "f"})
     return ",".join(parts) + "/after=" + (op_kind(ops[-1]) if ops else "root")
 
 
@@ -420,6 +422,10 @@ def run_history(x, hist, P, tag, case, apply, nonempty_db=True):
     for op in hist:
         pos2, rev2, st2 = view_apply(P, pos, rev, st, op)
         done.append(op)
+        if op[0] == "f" and not set(op[2]) <= set(pos):
+            # slicing by a feature that is only partly displayed gives a multi-span (lost + kept) map, for which
+            # cogent3 documents that the annotations are dropped: left open
+            return x, pos, rev, st, ("skip",)
         try:
             x = apply(x, op)
         except Unreachable:
